@@ -32,9 +32,9 @@ def items(tier, seed):
     out = [{"k": "ctor"}, {"k": "ctor_q"}, {"k": "cwq", "dim": True}, {"k": "cwq", "dim": False}, {"k": "empty"}]
     for d0 in (2, 3, 5):
         out.append({"k": "copy", "d0": d0})
-    for form in ("SetImage", "SetDomain", "image=", "domain="):
+    for form in ("SetImage", "SetDomain", "image=", "domain=", "SetValues_mage"):
         out.append({"k": "curve", "form": form})
-        for form2 in ("SetImage", "SetDomain"):
+        for form2 in ("SetImage", "SetDomain", "SetValues_mage"):
             out.append({"k": "curve2", "form": form, "form2": form2})
     out.append({"k": "curve_ctor"})
     # nested containers (a list of points, a 2-D numpy array): the LENGTH is the number of rows, not the number of numbers
@@ -62,6 +62,11 @@ def items(tier, seed):
             out.append({"k": "chidx", "d": d, "i": i})
             out.append({"k": "chidx", "d": d, "i": i, "cont": "numpy"})
             out.append({"k": "chidx", "d": d, "i": i, "cont": "tuple"})
+    # arrays whose quantity came out of arithmetic (derived, dimensionless, empty): ChangingIndex with an amount of that same quantity
+    for src_kind in ("squared", "ratio", "self_ratio", "empty"):
+        for cont in ("list", "numpy", "tuple"):
+            for i in (0, 1):
+                out.append({"k": "chidx_derived", "d": 2, "i": i, "src": src_kind, "cont": cont})
     # units related by an offset: re-expressing the untouched elements is not a multiplication
     for qt, u, v in (("temperature", "degC", "K"), ("temperature", "degF", "degC"), ("temperature", "K", "degF"), ("pressure", "psig", "Pa"), ("pressure", "bar", "bar(g)")):
         for d in (2, 3):
@@ -163,13 +168,15 @@ def run(cfg, V):
         steps = [(cfg["form"], V["k"])] + ([(cfg["form2"], V["j"])] if k == "curve2" else [])
         log = []
         for form, ln in steps:
-            new = Array(_seq(ln), "m" if "mage" in form else "s")
+            new = Array(_seq(ln), "m" if "mage" in form else "s")  # ('SetValues' is the deprecated alias of SetImage)
             before = (c.GetImage(), c.GetDomain())
             try:
                 if form == "SetImage":
                     c.SetImage(new)
                 elif form == "SetDomain":
                     c.SetDomain(new)
+                elif form == "SetValues_mage":
+                    c.SetValues(new)
                 elif form == "image=":
                     c.image = new
                 else:
@@ -217,6 +224,20 @@ def run(cfg, V):
         src_vals = SymArray(src_vals) if core.is_sym(src_vals[0]) else numpy.array(src_vals, dtype=float)
     elif cfg.get("cont") == "tuple":
         src_vals = tuple(src_vals)
+    if k == "chidx_derived":
+        ones = FixedArray(2, [1.0, 1.0], "m")
+        base = FixedArray(2, src_vals, "m")
+        src = {"squared": lambda: base * ones, "ratio": lambda: base / FixedArray(2, [1.0, 1.0], "s"), "self_ratio": lambda: base / ones,
+               "empty": lambda: FixedArray.CreateEmptyArray(2, src_vals)}[cfg["src"]]()
+        i = cfg["i"]
+        own = src.IndexAsScalar(1 - i)  # an amount of the array's own (derived) quantity
+        r1 = src.ChangingIndex(i, own)
+        # (a plain number is read as an amount in the array's unit; an array WITHOUT unit refuses it loudly - that route is not part of the claim)
+        r3 = src.ChangingIndex(i, Scalar.CreateWithQuantity(src.GetQuantity(), V["y"]), use_value_unit=False)
+        r2 = src.ChangingIndex(i, V["y"]) if src.GetUnit() else r3
+        # (a plain number is read in the array's UNIT: for 'm2' that resolves to the category 'area', so only the unit is compared on that route)
+        return {"derived": [(list(r.GetValues()), r.GetQuantity() == src.GetQuantity() if r is not r2 else r.GetUnit() == src.GetUnit(), r.dimension, type(r).__name__) for r in (r1, r2, r3)],
+                "src_vals": list(src.GetValues())}
     if k == "chidx_affine":
         src = FixedArray(d, src_vals, cfg["u"])
         amount = Scalar(V["y"], cfg["v"])
@@ -350,6 +371,13 @@ def props(cfg, T, obs):
         return [("len(values) == dimension >= 2", _inv(obs)), ("accepted only when valid", should), ("dimension is the requested one", obs["dim"] == d)]
     if isinstance(obs, Raised):
         return [("operation raises only ValueError/IndexError", False)]
+    if k == "chidx_derived":
+        xs = [T["x%d" % j] for j in range(2)]
+        i = cfg["i"]
+        wants = [[xs[1 - i] if j == i else xs[j] for j in range(2)], [T["y"] if j == i else xs[j] for j in range(2)], [T["y"] if j == i else xs[j] for j in range(2)]]
+        return [("ChangingIndex on an array whose quantity came out of arithmetic returns a FixedArray of the same quantity that differs only at the index",
+                 z3.And(*[z3.And(z3.BoolVal(bool(sameq) and dim == 2 and cls == "FixedArray" and len(vals) == 2), *[approx(a, b) for a, b in zip(vals, w)])
+                          for (vals, sameq, dim, cls), w in zip(obs["derived"], wants)]))]
     if k == "chidx_affine":
         from .common import get_db, oracle_convert
 
